@@ -17,13 +17,14 @@ pub mod c09;
 pub mod c09b;
 pub mod c11;
 pub mod c11_emit;
+pub mod c14;
 pub mod c15;
 pub mod c16;
 
 use crate::engine::{Ctx, Tier};
 use serde_json::Value;
 
-pub const ALL: &[&str] = &["C01", "C02", "C03", "C04", "C05", "C06", "C07", "C09", "C11", "C15", "C16", "C17", "C18", "C19"];
+pub const ALL: &[&str] = &["C01", "C02", "C03", "C04", "C05", "C06", "C07", "C09", "C11", "C14", "C15", "C16", "C17", "C18", "C19"];
 
 pub fn run(id: &str, tier: Tier, seed: u64) -> Option<i32> {
     macro_rules! go {
@@ -43,6 +44,7 @@ pub fn run(id: &str, tier: Tier, seed: u64) -> Option<i32> {
         "C07" => go!(c07, "C07"),
         "C09" => go!(c09, "C09"),
         "C11" => go!(c11, "C11"),
+        "C14" => go!(c14, "C14"),
         "C15" => go!(c15, "C15"),
         "C16" => go!(c16, "C16"),
         "C17" => go!(c17, "C17"),
@@ -63,6 +65,7 @@ pub fn replay(id: &str, v: &Value) -> Option<i32> {
         "C07" => c07::replay(v),
         "C09" => c09::replay(v),
         "C11" => c11::replay(v),
+        "C14" => c14::replay(v),
         "C15" => c15::replay(v),
         "C16" => c16::replay(v),
         "C17" => c17::replay(v),
